@@ -1,6 +1,9 @@
 import EtVerif.Props.TieStore
-import EtVerif.Props.C03
+import EtVerif.Props.C14
 #print axioms EtVerif.Ties.source_store_safe
+#print axioms EtVerif.C14.compute_reads_only
+#print axioms EtVerif.C14.compute_snapshot
+#print axioms EtVerif.C14.compute_unaffected_by_other_ids
 #print axioms EtVerif.C03.stored_eq_inline
 #print axioms EtVerif.C03.stored_request_reduces
 #print axioms EtVerif.C03.endpoints_agree
